@@ -1,6 +1,6 @@
 (* C16 — aggregation is faithful: the merged file means the union of its sources. *)
-Require Import Base Extracted Imports Aggregate.
-Require Import ImportsProofs AggregateProofs.
+Require Import Base Extracted Criteria Search AuditGraph DepGraph Resolve Imports Aggregate Witness.
+Require Import ImportsProofs AggregateProofs ResolveProofs ResolveTheorems RecordSets.
 Local Open Scope N_scope.
 
 (* per crate, the output audits are exactly the importable audits of the sources,
@@ -34,6 +34,34 @@ Proof. exact add_criterion_no_error_iff. Qed.
 Theorem C16_errors_persist : forall src acc c e, In e (snd acc) -> In e (snd (add_criterion src acc c)).
 Proof. exact add_criterion_errors_grow. Qed.
 
+(* "Importing the aggregate gives the same verdict as importing every source separately":
+   by the two theorems above the aggregate serves, per crate, the concatenation of what the
+   sources serve; a store that has all imported entries of a crate as ONE peer list
+   ([regroup_store]: what importing the aggregate yields) gets the same verdict as the store
+   with one list per source — for every graph, table and store ... *)
+Theorem C16_importing_the_aggregate_gives_the_same_verdict :
+  forall inp s, has_errors (resolve inp (regroup_store s)) = has_errors (resolve inp s).
+Proof. exact regrouping_keeps_verdict. Qed.
+(* ... because the verdict depends only on the SET of records each crate has (kind + criteria of
+   audits, user/window/criteria of wildcard audits, trusted entries, publisher, unpublished and
+   exemption records): not on the grouping into peers, the order, duplicates, freshness marks
+   or provenance tags *)
+Theorem C16_verdict_depends_only_on_the_record_sets :
+  forall inp s1 s2, st_criteria s2 = st_criteria s1 ->
+    (forall name, same_records (store_for s1 name) (store_for s2 name)) ->
+    has_errors (resolve inp s2) = has_errors (resolve inp s1).
+Proof. exact verdict_same_records. Qed.
+(* PARTIAL: that an entry's criteria mean the same when closed under the MERGED criteria table as
+   under its own source's table (sources are loaded by the tolerant peer-file parser, so every
+   entry's criteria are defined by its own file, and a differing re-definition is refused by
+   C16_definition_conflict_iff) is exercised on the implementation by the two-stage run. *)
+
+Example C16_verdict_nonvacuous :
+  has_errors (resolve w_graph w_store_two_peers) = false /\
+  has_errors (resolve w_graph (regroup_store w_store_two_peers)) = false /\
+  regroup_store w_store_two_peers <> w_store_two_peers.
+Proof. vm_compute. repeat split; discriminate. Qed.
+
 Example C16_nonvacuous :
   let f1 := {| af_criteria := [ {| ac_name := 0; ac_desc := Some 5; ac_url := None; ac_implies := []; ac_from := [] |} ];
                af_audits := [(0, [ {| ae_id := 1; ae_importable := true; ae_from := [] |};
@@ -50,3 +78,5 @@ Print Assumptions C16_wildcards_are_the_tagged_union.
 Print Assumptions C16_nothing_non_importable.
 Print Assumptions C16_definition_conflict_iff.
 Print Assumptions C16_errors_persist.
+Print Assumptions C16_importing_the_aggregate_gives_the_same_verdict.
+Print Assumptions C16_verdict_depends_only_on_the_record_sets.
